@@ -63,9 +63,19 @@ def run(tier: str) -> int:
                           ("pkg/__init__.py", ""), ("pkg/stub.js", ""), ("a/copy.py", POOL["f1"][1]), ("b/copy.py", POOL["f1"][1]),
                           # names without extension: some map to a supported language by their whole name, some to another lexer, some to none
                           ("LICENSE", "def not_code():\n    pass\n"), ("tools/BUILD", "def library(name):\n    return name\n"), ("Dockerfile", "FROM x\nRUN def f():\n"),
-                          ("SConstruct", "def build(env):\n    return env\n"), ("docs/README", "def readme():\n    pass\n"), ("Makefile", "all:\n\tdef x():\n")):
+                          ("SConstruct", "def build(env):\n    return env\n"), ("docs/README", "def readme():\n    pass\n"), ("Makefile", "all:\n\tdef x():\n"),
+                          # encodings side by side: how one file had to be decoded must not influence the next one
+                          ("enc/legacy.py", "# r\xe9sum\xe9\ndef old(a):\n    return 'caf\xe9'\n".encode("latin-1")),
+                          ("enc/modern.py", "def gr\u00fc\u00dfe(a):\n    s = 'caf\u00e9 \u20ac'\n    return s + '\u00e9\u20ac'\n".encode("utf-8")),
+                          ("enc/legacy.c", "/* \xe9 */\nint old(int a) {\n  return a;\n}\n".encode("latin-1")),
+                          ("enc/modern.c", "int neu(int a) {\n  s = \"caf\u00e9 \u20ac\"; return a; /* \u00e9 */ }\n".encode("utf-8")),
+                          ("enc2/a_legacy.js", "// \xe9\nfunction old(a) {\n  return a;\n}\n".encode("latin-1")),
+                          ("enc2/b_modern.js", "function neu(a) {\n  return '\u00e9\u20ac'; }\n".encode("utf-8"))):
             (gen / rel).parent.mkdir(parents=True, exist_ok=True)
-            (gen / rel).write_text(text)
+            if isinstance(text, bytes):
+                (gen / rel).write_bytes(text)
+            else:
+                (gen / rel).write_text(text)
         corpus_copy = top / "corpus"
         shutil.copytree(CORPUS, corpus_copy)
         trees = [("generated", str(gen)), ("corpus", str(corpus_copy))]
